@@ -386,4 +386,24 @@ CHECKS = {
             {"name": "callbacks-rt", "test": "TestCallbacks", "quick": 60, "thorough": 600, "shards": 8},
         ],
     },
+    "C06": {
+        "pkg": "c05",
+        "level": "fault_enumeration",
+        "level_text": ("Fault enumeration over the loss point: the 13 operations of C05 (generic, network and NETCONF drivers, including the "
+                       "two open/login flavours) with the transport reporting end-of-stream, a persistent non-EOF read error or a write "
+                       "error after byte k of the measured exchange (k drawn, and every k enumerated for fixed exchanges in thorough / "
+                       "every 23rd in quick), or while idle; 1-2 further operations afterwards, then Close. Every case runs in a child "
+                       "process inside a synctest bubble: the in-flight call must return an error within 50 read delays + 10 ms of the "
+                       "loss (far below its timeout), must not report success unless every needed byte had been delivered (then with the "
+                       "full result), every later call must fail, and the child must exit cleanly (a panic in any goroutine kills it)."),
+        "level_note": "Trusted: device models, dry-run measurement, child-process exit status as the no-panic oracle, testing/synctest.",
+        "technique": "fault enumeration of loss points x loss kinds driven by rapid and exhaustive k loops; child-process isolation; virtual-time promptness bound",
+        "rule": ("loss: op x kind x k x idle x further ops x cut plan; loss-all-k: op x kind x plan x every k. Non-trivial: 0 < k < L, or a "
+                 "non-EOF kind, or NETCONF, or idle. Distinct = sha1(case)."),
+        "assumptions": ["ReadDelay 500 us, connection-wide timeout 1 s virtual"],
+        "subs": [
+            {"name": "loss", "test": "TestLoss", "quick": 500, "thorough": 6000, "shards": 16},
+            {"name": "loss-all-k", "test": "TestLossAllK", "quick": None, "thorough": None, "shards": 16, "enum": True},
+        ],
+    },
 }
